@@ -845,6 +845,47 @@ class SxBytes:
     def endswith(s, p):
         return s[len(s) - len(p):] == p if len(p) else True
 
+    def _strip_set(s, chars):
+        if chars is None:
+            chars = b" \t\n\r\x0b\x0c"
+        if isinstance(chars, SxBytes):
+            c = chars.concrete()
+            if c is None:
+                raise Unsupported("strip with symbolic byte set")
+            chars = c
+        return set(bytes(chars))
+
+    def _in_set(s, b, cs):
+        if isinstance(b, int):
+            return b in cs
+        return bool(mkbool(z3.Or(*[z3bool(b == v) for v in sorted(cs)]))) if cs else False
+
+    def lstrip(s, chars=None):
+        cs = s._strip_set(chars)
+        bs = list(s.bs)
+        while bs and s._in_set(bs[0], cs):
+            bs.pop(0)
+        return _mkbytes(bs)
+
+    def rstrip(s, chars=None):
+        cs = s._strip_set(chars)
+        bs = list(s.bs)
+        while bs and s._in_set(bs[-1], cs):
+            bs.pop()
+        return _mkbytes(bs)
+
+    def strip(s, chars=None):
+        r = s.lstrip(chars)
+        return r.rstrip(chars) if isinstance(r, SxBytes) else r.rstrip(chars)
+
+    def rjust(s, width, fill=b"\x00"):
+        n = max(0, width - len(s.bs))
+        return SxBytes(list(fill) * n + s.bs)
+
+    def ljust(s, width, fill=b"\x00"):
+        n = max(0, width - len(s.bs))
+        return SxBytes(s.bs + list(fill) * n)
+
     def __contains__(s, x):
         raise Unsupported("'in' on symbolic bytes")
 
